@@ -391,3 +391,8 @@ def renumber_state(st):
             return tuple(go(x) for x in v)
         return v
     return go(st)
+
+
+def canon_value(v, oids):
+    """a raw python value (as in a history) in the decoded-observation representation"""
+    return decode_tokens(wire.enc(v, oids), 0)[0]
